@@ -40,8 +40,18 @@ var ctx = context.Background()
 
 // ---- domain ----
 
+// Vocabulary. Thorough (and replay): 4 terms (ab is a prefix of abc, Ünï needs unicode lower-casing) + a
+// stop word. Quick drops the plain term "zed" (see setVocabulary): every index B-tree operation copies a
+// 5000-slot node, which makes a case ~40 ms of CPU, and the quick tier has to stay well under 2 minutes.
 var docWords = []string{"ab", "abc", "zed", "the", "Ünï"}
-var queryWords = []string{"ab", "abc", "zed", "the", "Ünï", "nope", "AB"}
+var queryWords = []string{"ab", "abc", "zed", "the", "Ünï", "nope", "AB"} // the last one is only used in 3 fixed variants
+
+func setVocabulary(thorough bool) {
+	if !thorough {
+		docWords = []string{"ab", "abc", "the", "Ünï"}
+		queryWords = []string{"ab", "abc", "the", "Ünï", "nope", "AB"}
+	}
+}
 
 // document ids by position in the indexing order. One contains the posting-key separator and a
 // non-ASCII letter, one differs from another only by case: ids are caller-chosen opaque strings.
@@ -200,10 +210,8 @@ func partitionKey(p, bl []int) string {
 // A class representative is the LAST corpus (in enumeration order) of its token-content class, i.e. the
 // member using the stop word most.
 // quick:    class representatives x one document order (rotating) x every composition.
-// thorough: EVERY corpus x one document order (rotating) x every composition, plus, for the class
-//
-//	representatives, every remaining ordered partition of the documents into 1..3 transactions
-//	(13 in total for 3 documents).
+// thorough: class representatives x every ordered partition of the documents into 1..3 transactions (13
+// for 3 documents); every other corpus x one document order x one composition (both rotating).
 func enumerate(thorough bool) []tcase {
 	docs := allDocs()
 	corpora := allCorpora(len(docs))
@@ -222,7 +230,12 @@ func enumerate(thorough bool) []tcase {
 		p0 := k % len(ps)
 		k++
 		seen := map[string]bool{}
-		for _, bl := range compositions(len(c)) {
+		comps := compositions(len(c))
+		if !rep {
+			// thorough, not a representative: one composition (rotating) is enough to validate dedupe 1
+			comps = comps[ci%len(comps) : ci%len(comps)+1]
+		}
+		for _, bl := range comps {
 			seen[partitionKey(ps[p0], bl)] = true
 			out = append(out, tcase{Corpus: c, Perm: ps[p0], Blocks: bl, Idx: len(out), Fresh: rep && allSingletons(bl)})
 		}
@@ -409,7 +422,11 @@ func searchAll(dir string, queries [][]int, salt int) ([]queryResult, string) {
 // searchAllFresh does the same in a brand-new OS process (no L1/L2 cache content from the writers).
 func searchAllFresh(dir string, salt int) ([]queryResult, string) {
 	cmd := exec.Command(os.Args[0], "C32")
-	cmd.Env = append(os.Environ(), "C32_CHILD_DIR="+dir, fmt.Sprint("C32_CHILD_SALT=", salt), "VERIF_JOB=", "GOMAXPROCS=2")
+	full := ""
+	if len(docWords) == 5 {
+		full = "1"
+	}
+	cmd.Env = append(os.Environ(), "VERIF_TIER=quick", "C32_CHILD_FULLVOCAB="+full, "C32_CHILD_DIR="+dir, fmt.Sprint("C32_CHILD_SALT=", salt), "VERIF_JOB=", "GOMAXPROCS=2")
 	var stderr bytes.Buffer
 	cmd.Stderr = &stderr
 	b, err := cmd.Output()
@@ -618,6 +635,13 @@ const nJobs = 97
 
 func main() {
 	slog.SetDefault(slog.New(slog.NewTextHandler(io.Discard, &slog.HandlerOptions{Level: slog.LevelError + 4})))
+	isReplay := false
+	for _, a := range os.Args {
+		if a == "--replay" {
+			isReplay = true
+		}
+	}
+	setVocabulary(ev.TierFromArgs() == "thorough" || isReplay || os.Getenv("C32_CHILD_FULLVOCAB") != "")
 	if os.Getenv("C32_CHILD_DIR") != "" {
 		childSearch()
 	}
@@ -714,13 +738,15 @@ func main() {
 	run.Set("corpora_distinct_by_token_content", len(tokSig))
 	run.Set("index_cases_enumerated", len(cases))
 	run.Set("queries_per_case", len(allQueries()))
-	dom := "domain: corpus = set of <=3 distinct documents, document = multiset of <=3 words from {ab,abc,zed,the(stop word),Ünï} (56 documents, 29317 corpora); "
-	qry := "; then, in a fresh reading transaction, every query of <=2 words from {ab,abc,zed,the,Ünï,nope(unknown)} plus AB, 'AB ab', 'abc AB' (46 incl. the empty query)"
+	nq := len(allQueries())
+	dom := fmt.Sprintf("domain: corpus = set of <=3 distinct documents, document = multiset of <=3 words from {%s} ('the' is a stop word; %d documents, %d corpora); ", strings.Join(docWords, ","), len(docs), len(allCorpora(len(docs))))
+	qry := fmt.Sprintf("; then, in a fresh reading transaction, every query of <=2 words from {%s} plus AB, 'AB ab', 'abc AB' (%d incl. the empty query)", strings.Join(queryWords[:len(queryWords)-1], ","), nq)
 	tail := ". evaluations = (index case, search pass, query) triples, all distinct by construction; non-trivial = the reference result set is non-empty"
 	if thorough {
-		run.Set("rule", dom+"(a) EVERY corpus, one document order (rotating through all orders), x every composition of the documents into 1..3 committed infs transactions; (b) for one corpus per token-content class (corpora whose documents tokenize to the same multiset of token multisets; representative = the member using the stop word most) additionally every other ordered partition of its documents into 1..3 transactions (13 in total for 3 documents)"+qry+"; the one-document-per-transaction cases of the class representatives are searched a second time from a brand-new OS process (nothing cached)"+tail)
+		run.Set("rule", dom+"(a) for one corpus per token-content class (corpora whose documents tokenize to the same multiset of token multisets; representative = the member using the stop word most) EVERY ordered partition of its documents into 1..3 committed infs transactions (13 for 3 documents); (b) every other corpus in one document order and one composition (both rotating through all possibilities)"+qry+"; the one-document-per-transaction cases of the class representatives are searched a second time from a brand-new OS process (nothing cached)"+tail)
 	} else {
 		run.Set("rule", dom+"one corpus per token-content class (corpora whose documents tokenize to the same multiset of token multisets are merged; the representative is the member using the stop word most), one document order per corpus (rotating through all orders), x every composition of the documents into 1..3 committed infs transactions"+qry+"; the one-document-per-transaction cases are searched a second time from a brand-new OS process (nothing cached)"+tail)
+		run.Assumption("quick-tier vocabulary has 3 terms (ab, abc = ab+c, Ünï) + the stop word; the thorough tier adds the plain term zed (56 documents, 29317 corpora). Reason: NewIndex hard-codes slot length 5000 and every B-tree operation copies such a node, so one index case costs ~40 ms CPU")
 	}
 	run.Assumption("reference BM25: k1=1.2, b=0.75, idf=ln((N-n+0.5)/(n+0.5)+1), score(d)=sum over query TOKENS (a repeated query term counts twice) of idf*f*(k1+1)/(f+k1*(1-b+b*len(d)/avglen)); N counts every indexed document including those with no tokens")
 	run.Assumption("documents are enumerated as word multisets: Index.Add sees the text only through Tokenize(text) and reduces it to a Go map of frequencies (iteration order random by language definition), so word order cannot be observed; the tokenizer itself is checked over all word sequences and separators (tokenizer_cases)")
@@ -728,9 +754,9 @@ func main() {
 	d2 := "dedupe 2 (document order / which document goes to which transaction): the committed index content is a commutative function of the (docID, tokens) pairs — distinct-key B-tree inserts and integer sums — and with <= 9 postings every index B-tree is a single node (slot length 5000) whose slots are sorted by key whatever the insertion order"
 	if !thorough {
 		run.Assumption("quick-tier " + d1)
-		run.Assumption("quick-tier " + d2 + ". The thorough tier validates dedupe 1 by running every corpus and dedupe 2 by running every ordered partition for every token-content class")
+		run.Assumption("quick-tier " + d2 + ". The thorough tier validates dedupe 1 by running every corpus at least once and drops dedupe 2 by running every ordered partition for every token-content class")
 	} else {
-		run.Assumption("thorough tier: every corpus is run (no dedupe 1) in every composition; all 13 ordered partitions are run per token-content class only — " + d1)
+		run.Assumption("thorough tier: every corpus is run at least once (validates dedupe 1); all 13 ordered partitions are run per token-content class only (no dedupe 2) — " + d1)
 	}
 	_ = d2
 	run.Assumption("index B-trees stay single-node (NewIndex hard-codes slot length 5000), so the postings prefix scan across node boundaries is not exercised here (cursor placement after a miss is covered on multi-node trees by C18)")
